@@ -489,6 +489,8 @@ class Engine:
         self.entry_env = dict(fr.env)
         self.entry_heap = dict(self.heap)
         self.old_stack.append((self.entry_env, self.entry_heap))
+        for (ln, exprs) in c.hints:
+            self.add_hint(ln, exprs, fr.env)
         is_gen = any(isinstance(n, (ast.Yield, ast.YieldFrom)) for n in ast.walk(node))
         if is_gen:
             if c.returns is None:
@@ -503,7 +505,9 @@ class Engine:
             result = fr.yielded if is_gen else r.v
         except PyRaise as e:
             raised = e
+        # in postconditions parameter names denote the values at entry (references), read in the final heap
         env = dict(fr.env)
+        env.update(self.entry_env)
         if raised is None:
             env["result"] = result
             # conditions under which the contract demands an exception
@@ -531,6 +535,18 @@ class Engine:
                                 raised.exc, raised.line))
                 for e in c.raise_ensures.get(aname, []):
                     self.oblige("raise_post[%s]" % raised.exc, self.spec_bool(e, env, old=True), raised.line, e)
+
+    def add_hint(self, lemma_name, exprs, env):
+        """assume a ground instance of a (separately proved) lemma"""
+        L = LEMMAS[lemma_name]
+        terms = []
+        for e, v in zip(exprs, L.vars):
+            val = self.spec_eval(e, env) if isinstance(e, str) else e
+            terms.append(self.to_sv(val).t if not isinstance(val, z3.ExprRef) else val)
+        self.hinted = getattr(self, "hinted", set())
+        self.hinted.add(lemma_name)
+        self.lemmas_used.add(lemma_name)
+        self.assume(z3.substitute(L.body, *list(zip(L.vars, terms))))
 
     # ------------------------------------------------------------------ spec expressions
     def spec_bool(self, src, env, old=False):
